@@ -65,7 +65,9 @@ PROPS = {
                 "1-3 queries. Oracle per call: success => series and chunk counts of the response within the limits and the answer complete (equal to the "
                 "reference); model's merged count above a limit => the call fails with gRPC ResourceExhausted; between per-block sum and merged count both "
                 "outcomes are accepted. One run in twelve is unscheduled instead: 2-6 really parallel goroutines share one Limiter and together ask for "
-                "one unit more than the limit (one long burst, then 4000 rounds at the boundary); at least one reservation must be refused. "
+                "one unit more than the limit (one long burst, then 4000 rounds at the boundary); at least one reservation must be refused. In every scheduled run the same TSDBStore also answers each request of the pool once "
+                "plainly and once behind store.NewLimitedStoreServer with series/sample limits drawn around the plain counts (over => fails, within => "
+                "succeeds with the same series). "
                 "distinct = distinct event-log hash; non-trivial = the first query matches series and a limit is configured.",
         "components": GW_COMPONENTS,
         "assumptions": _ASSUME_GW + ["the bytes limiter is disabled (the model cannot predict fetched bytes)",
